@@ -235,6 +235,12 @@ pub struct Interpreter {
     /// Uses ModuleExport to distinguish direct exports (with live bindings) from re-exports
     pub exports: FxHashMap<JsString, ModuleExport>,
 
+    /// Native stack guard for calls that re-enter the interpreter from native code
+    /// (callbacks of map/sort/replace/..., getters, coercion hooks, proxy traps): address of
+    /// a local of the outermost such call and the current nesting depth.
+    native_stack_base: usize,
+    native_reentry_depth: usize,
+
     /// Roots for the values held by `exports` (the scratch map is invisible to the
     /// collector); cleared together with the map.
     pub(crate) exports_guard: Guard<JsObject>,
@@ -490,6 +496,8 @@ impl Interpreter {
             range_error_prototype,
             syntax_error_prototype,
             exports: FxHashMap::default(),
+            native_stack_base: 0,
+            native_reentry_depth: 0,
             exports_guard,
             call_stack: Vec::new(),
             next_generator_id: 1,
@@ -3929,8 +3937,35 @@ impl Interpreter {
         self.call_function_with_new_target(callee, this_value, args, JsValue::Undefined)
     }
 
+    /// Native stack that nested re-entrant calls may use before the script gets a
+    /// RangeError instead of the process a stack overflow (threads commonly have 2 MB).
+    const NATIVE_STACK_BUDGET: usize = 1024 * 1024;
+
     /// Call a function with an explicit new.target value (for constructor calls)
     pub fn call_function_with_new_target(
+        &mut self,
+        callee: JsValue,
+        this_value: JsValue,
+        args: &[JsValue],
+        new_target: JsValue,
+    ) -> Result<Guarded, JsError> {
+        // Every call that arrives here from native code runs a nested VM on the native
+        // stack.  Script recursion routed through such calls (map -> callback -> map ...)
+        // must end in a catchable error, not in a stack overflow of the embedding process.
+        let marker = 0u8;
+        let here = &marker as *const u8 as usize;
+        if self.native_reentry_depth == 0 {
+            self.native_stack_base = here;
+        } else if self.native_stack_base.abs_diff(here) > Self::NATIVE_STACK_BUDGET {
+            return Err(JsError::range_error("Maximum call stack size exceeded"));
+        }
+        self.native_reentry_depth += 1;
+        let result = self.call_function_with_new_target_inner(callee, this_value, args, new_target);
+        self.native_reentry_depth -= 1;
+        result
+    }
+
+    fn call_function_with_new_target_inner(
         &mut self,
         callee: JsValue,
         this_value: JsValue,
